@@ -162,10 +162,15 @@ where
     /// See [connection shutdown](https://www.rfc-editor.org/rfc/rfc9114.html#connection-shutdown) for more information.
     #[cfg_attr(feature = "tracing", instrument(skip_all, level = "trace"))]
     pub async fn shutdown(&mut self, max_requests: usize) -> Result<(), ConnectionError> {
-        let max_id = self
-            .last_accepted_stream
-            .map(|id| id + max_requests)
-            .unwrap_or(StreamId::FIRST_REQUEST);
+        //= https://www.rfc-editor.org/rfc/rfc9114#section-5.2
+        //# Requests or pushes with the indicated identifier or greater are rejected
+        //# (Section 4.1.1) by the sender of the GOAWAY.
+        // The identifier is exclusive: it is the first stream id that will be rejected, so it has to
+        // lie above the last accepted stream and above the `max_requests` which are still admitted.
+        let max_id = match self.last_accepted_stream {
+            Some(id) => id + max_requests + 1,
+            None => StreamId::FIRST_REQUEST + max_requests,
+        };
 
         self.inner.shutdown(&mut self.sent_closing, max_id).await
     }
@@ -204,7 +209,7 @@ where
                     // incoming requests not belonging to the grace interval. It's possible that
                     // some acceptable request streams arrive after rejected requests.
                     if let Some(max_id) = self.sent_closing {
-                        if s.send_id() > max_id {
+                        if s.send_id() >= max_id {
                             s.stop_sending(Code::H3_REQUEST_REJECTED.value());
                             s.reset(Code::H3_REQUEST_REJECTED.value());
                             if self.poll_requests_completion(cx).is_ready() {
